@@ -226,13 +226,16 @@ Next ==
         \* C19: a batch whose j-th element already lives in a document must be refused (ValueError)
         \* whatever the other arguments are; src = "same" (an item of this list) or "other" (another file)
         \/ Attached /\ K \in {"raw", "node", "map"} /\
-           \E op \in {"append", "insert", "setitem", "setslice", "extend", "mset"} \cap Ops :
-           \E k \in 1..(IF op \in {"setslice", "extend"} THEN MaxBatch ELSE 1) : \E j \in 1..k :
+           \E op \in ({"append", "insert", "setitem", "setslice", "extend", "mset"} \cap Ops)
+                      \cup (IF "setslice" \in Ops THEN {"setext"} ELSE {}) :
+           \E k \in 1..(IF op \in {"setslice", "extend"} THEN MaxBatch ELSE IF op = "setext" THEN 2 ELSE 1) : \E j \in 1..k :
            \E src \in {"same", "other", "otherdup"} : \E i \in {0, -1, 1} :
               \* a donor from this very list must lie outside the replaced range (first item, target = last)
               /\ (src = "same" => n > 0)
               /\ (src = "same" /\ op \in {"setitem", "setslice"} => n >= 2 /\ i = -1)
               /\ (op = "setitem" => ValidIndex(i, n))
+              \* extended slice view[::2] = batch of 2 (needs 3 or 4 items); the donor must not be item 1 or 3
+              /\ (op = "setext" => k = 2 /\ n \in {3, 4} /\ i = 0 /\ src # "same")
               /\ (op = "mset" => K = "map")
               /\ Do("attached", v, [op |-> op, k |-> k, j |-> j, src |-> src, i |-> i], Refuse("ValueError", v))
 
